@@ -450,6 +450,7 @@ func (*accState).Apply
   ensures not-started-rows-are-not-counted: !(len(args) >= 3 && AnalyticToBool(args[2])) && len(args) >= 2 && !AnalyticToBool(args[1]) && !old(s.started) ==> s.sum == old(s.sum) && s.count == old(s.count) && s.num == old(s.num) && s.hasNum == old(s.hasNum) && !s.started
   ensures numeric-input-accumulates: !(len(args) >= 3 && AnalyticToBool(args[2])) && !(len(args) >= 2 && !AnalyticToBool(args[1]) && !old(s.started)) && len(args) > 0 && second(toFloat64Generic(args[0])) ==> s.count == old(s.count) + 1 && s.hasNum && (s.kind == "acc_sum" || s.kind == "acc_avg" ==> s.sum == old(s.sum) + toFloat64Generic(args[0])) && (s.kind == "acc_max" ==> s.num == ite(!old(s.hasNum) || toFloat64Generic(args[0]) > old(s.num), toFloat64Generic(args[0]), old(s.num))) && (s.kind == "acc_min" ==> s.num == ite(!old(s.hasNum) || toFloat64Generic(args[0]) < old(s.num), toFloat64Generic(args[0]), old(s.num)))
   ensures null-input-is-skipped: !(len(args) >= 3 && AnalyticToBool(args[2])) && len(args) > 0 && args[0] == nil ==> s.sum == old(s.sum) && s.count == old(s.count) && s.num == old(s.num) && s.hasNum == old(s.hasNum)
+  ensures once-started-the-accumulation-stays-started-until-a-reset: !(len(args) >= 3 && AnalyticToBool(args[2])) ==> (s.started <==> old(s.started) || (len(args) >= 2 && AnalyticToBool(args[1])))
 
 func (*accState).Reset
   props C14
